@@ -2,6 +2,7 @@ import Verif.Proofs.Move
 import Verif.Proofs.MoveModel
 import Verif.Proofs.RetargetModel
 import Verif.Proofs.InlineModel
+import Verif.Proofs.DeepestReaches
 
 /-!
 # C01 — the naming move of Flatten preserves the meaning of the API (proved for all documents)
@@ -128,6 +129,60 @@ theorem inline_preserves_meaning (d d' : J) (key : String) (sch : J)
       unfold (Proofs.RetargetModel.bundleWith d' T rest) hops n ("", Replace.keyTokens key ++ t)) :=
   Proofs.InlineModel.updateRefWithSchema_inline_preserves d d' key sch h T rest a1 hget hv1 etoks hsch hobj hne q0 ht1
     hreach hcanon hkeys hgoodT hops had hpos
+
+/-! ### the rewrites as the phases issue them: what `DeepestRef` returns is on the chain
+
+`namePointers` and `Name` decide what to write from the result of `replace.DeepestRef` (model: `Flatten.deepestRef`).
+`Proofs.DeepestReaches.deepestRef_reaches` shows that this result lies on the chain of `$ref`s of the reference it was
+asked about — the hypothesis `Reaches` of the two theorems above — so a step of the phases, as the model takes it,
+preserves meaning (standing hypotheses as before; `TableOK`: the `$ref` table of the root agrees with the decoder). -/
+
+/-- the `TopLevel` branch of `namePointers` (and the dependents loop of `Name`): `r := DeepestRef(v)`, then
+    `UpdateRef(key, r)` -/
+theorem pointer_retarget_step_preserves (x : Flatten.Ext) (d d' : J) (key : String) (fuel : Nat) (r : String)
+    (sch : Option J) (T : List (String × Pos)) (rest : Bundle) (a1 : J)
+    (hget : Spec.Pointer.get d (Replace.keyTokens key) = some a1) (hv1 : Doc.refStr a1 ≠ "")
+    (hfrag : Flatten.hasFragmentOnly (Doc.refStr a1) = true)
+    (hdeep : Flatten.deepestRef x d fuel (Doc.refStr a1) = .ok (r, sch)) (hr : r ≠ "")
+    (hupd : Replace.updateRef d key r = .ok d')
+    (hT : Proofs.DeepestReaches.TableOK x T)
+    (q0 q' : Pos) (ht1 : T.lookup (Doc.refStr a1) = some q0) (ht2 : T.lookup r = some q')
+    (hcanon : AllCanon (Replace.keyTokens key)) (hkeys : keysCanon d = true)
+    (hgoodT : ∀ doc s q, (Proofs.RetargetModel.bundleWith d T rest).target doc s = some q →
+      Proofs.RetargetModel.Good (Replace.keyTokens key) q)
+    (hops : Nat) (had : Proofs.Retarget.RSetting.Adequate (Proofs.RetargetModel.bundleWith d T rest) hops) :
+    ∀ n p, Proofs.RetargetModel.Good (Replace.keyTokens key) p →
+      unfold (Proofs.RetargetModel.bundleWith d T rest) hops n p =
+        unfold (Proofs.RetargetModel.bundleWith d' T rest) hops n p :=
+  retarget_preserves_meaning d d' key r hupd T rest a1 hget hv1 hr q0 q' ht1 ht2
+    (Proofs.DeepestReaches.deepestRef_reaches x d T rest hT fuel _ r sch hfrag hdeep q0 q' ht1 ht2).1
+    hcanon hkeys hgoodT hops had
+
+/-- the expansion branch of `flattenAnonPointer`: `(r, sch) := DeepestRef(v)`, then `UpdateRefWithSchema(key, sch)` -/
+theorem pointer_expand_step_preserves (x : Flatten.Ext) (d d' : J) (key : String) (fuel : Nat) (r : String)
+    (sch : J) (T : List (String × Pos)) (rest : Bundle) (a1 : J)
+    (hget : Spec.Pointer.get d (Replace.keyTokens key) = some a1) (hv1 : Doc.refStr a1 ≠ "")
+    (hfrag : Flatten.hasFragmentOnly (Doc.refStr a1) = true)
+    (hdeep : Flatten.deepestRef x d fuel (Doc.refStr a1) = .ok (r, some sch))
+    (hupd : Replace.updateRefWithSchema d key sch = .ok d')
+    (hT : Proofs.DeepestReaches.TableOK x T)
+    (q0 : Pos) (etoks : List String) (ht1 : T.lookup (Doc.refStr a1) = some q0) (ht2 : T.lookup r = some ("", etoks))
+    (hcanon : AllCanon (Replace.keyTokens key)) (hkeys : keysCanon d = true)
+    (hgoodT : ∀ doc s q, (Proofs.RetargetModel.bundleWith d T rest).target doc s = some q →
+      Proofs.InlineModel.GoodI (Replace.keyTokens key) q ∨ q = ("", Replace.keyTokens key))
+    (hops : Nat) (had : Proofs.Retarget.RSetting.Adequate (Proofs.RetargetModel.bundleWith d T rest) hops)
+    (hpos : 0 < hops) :
+    (∀ n p, Proofs.InlineModel.GoodI (Replace.keyTokens key) p ∨ p = ("", Replace.keyTokens key) →
+      unfold (Proofs.RetargetModel.bundleWith d T rest) hops n p =
+        unfold (Proofs.RetargetModel.bundleWith d' T rest) hops n p) ∧
+    (∀ n t, unfold (Proofs.RetargetModel.bundleWith d T rest) hops n ("", etoks ++ t) =
+      unfold (Proofs.RetargetModel.bundleWith d' T rest) hops n ("", Replace.keyTokens key ++ t)) := by
+  obtain ⟨hreach, hs⟩ :=
+    Proofs.DeepestReaches.deepestRef_reaches x d T rest hT fuel _ r (some sch) hfrag hdeep q0 ("", etoks) ht1 ht2
+  obtain ⟨hnode, hobj, hne⟩ := hs sch rfl
+  rw [Proofs.RetargetModel.node_root] at hnode
+  exact inline_preserves_meaning d d' key sch hupd T rest a1 hget hv1 etoks hnode hobj hne q0 ht1 hreach hcanon hkeys
+    hgoodT hops had hpos
 
 /-- `replace.RewriteSchemaToRef` (model) is the `setAt` of the setting: what the move theorem calls
     "leave a `$ref` node at `toks`" is what the primitive does -/
